@@ -590,6 +590,7 @@ class Ctx:
         self.fires = {}
         self.keep_scope = set()  # A::b combos to leave (none)
         self.defined = set()     # macros defined for conditional compilation
+        self.ref_returning = set()  # cnames of functions returning a C++ reference (calls are wrapped in (*...))
 
     def fire(self, rule, n=1):
         self.fires[rule] = self.fires.get(rule, 0) + n
@@ -904,6 +905,8 @@ def rewrite_body(body, ctx, cname):
                         new.append(Tok('op', ','))
                         new.append(Tok('ws', ' '))
                     new += toks[n + 1:e + 1]
+                    if fname in ctx.ref_returning:
+                        new = [Tok('op', '('), Tok('op', '*')] + new + [Tok('op', ')')]
                     toks = toks[:r_start] + new + toks[e + 1:]
                     toks = tokenize(untokenize(toks))
                     ctx.fire('R4')
@@ -948,6 +951,11 @@ def rewrite_body(body, ctx, cname):
                         fname = table.get(argc) or table.get('*')
                     if fname is None:
                         raise ExtractError("%s: no overload of %s with %d args" % (cname, t.text, argc))
+                    if fname in ctx.ref_returning:
+                        # (*f(self, args)) : insert "(*" here and a ")" after the matching close paren
+                        toks.insert(e + 1, Tok('op', ')'))
+                        out.append(Tok('op', '('))
+                        out.append(Tok('op', '*'))
                     out.append(Tok('id', fname))
                     out.append(Tok('op', '('))
                     if fname not in ctx.static_methods:
